@@ -154,8 +154,20 @@ static void blk_ctx_capacity(void) {
 			else if (which == 0 && (cl != off[cnt] || memcmp(conn->ca_certs, many, cl))) { snprintf(key, sizeof key, "C06:connection-store:trust-list-differs-from-the-configured-one"); vh_viol(key, "\"configured_octets\":%zu,\"stored\":%zu", off[cnt], cl); } }
 		free(conn); free(list); if (cnt == 1 || cnt == 5 || cnt == 13) vh_sample("{\"block\":\"connection-store-capacities\",\"which\":\"%s\",\"octets\":%zu,\"tls_init\":%d}", wn, off[cnt], r); }
 }
+/* RecipientInfo lookups: the message's issuer / serial number against the recipient's own, every length relation (shorter, equal, longer: prefix-equal in each case),
+   the recipient's values in exact-size heap buffers: a comparison that takes its extent from the message reads behind them */
+static void blk_rcpt_lookup(void) {
+	if (!vh_block_begin("recipient-info-lookups")) return; creds_init(); static const size_t SL[] = { 1, 2, 3, 4, 8, 19, 20, 21, 33 }; uint8_t iss[2][128]; size_t il[2] = { 0, 0 }; make_name(iss[0], &il[0], "R"); make_name(iss[1], &il[1], "R"); { static const uint8_t extra[] = { 0x31, 0x0a, 0x30, 0x08, 0x06, 0x03, 0x55, 0x04, 0x0b, 0x13, 0x01, 0x58 }; memcpy(iss[1] + il[1], extra, sizeof extra); il[1] += sizeof extra; }
+	uint8_t serial[40]; for (int i = 0; i < 40; i++) serial[i] = (uint8_t)(0x11 + i); uint8_t keymat[16]; memset(keymat, 0x3c, 16);
+	for (int mi = 0; mi < 2; mi++) for (int ri = 0; ri < 2; ri++) for (int a = 0; a < 9; a++) for (int b = 0; b < 9; b++) { if (!vh_next()) continue; uint8_t rinfo[700], *p = rinfo; size_t rl = 0; venv_reset(300 + a * 9 + b); if (cms_recipient_info_encrypt_to_der(&CK[2], iss[mi], il[mi], serial, SL[a], keymat, 16, &p, &rl) != 1) continue;
+		uint8_t *hi = (uint8_t *)malloc(il[ri]), *hs = (uint8_t *)malloc(SL[b]), *hr = (uint8_t *)malloc(rl); memcpy(hi, iss[ri], il[ri]); memcpy(hs, serial, SL[b]); memcpy(hr, rinfo, rl); uint8_t out[64]; size_t ol = 0; const uint8_t *cp = hr; size_t l = rl;
+		int r = cms_recipient_info_decrypt_from_der(&CK[2], hi, il[ri], hs, SL[b], out, &ol, sizeof out, &cp, &l); vh_evals++; vh_nontriv++; int same = mi == ri && a == b;
+		if ((r == 1) != same) { vh_viol(r == 1 ? "C06:recipient-info-lookup:another-recipients-info-opened" : "C06:recipient-info-lookup:own-info-refused", "\"message_serial_len\":%zu,\"own_serial_len\":%zu,\"message_issuer\":%d,\"own_issuer\":%d,\"ret\":%d", SL[a], SL[b], mi, ri, r); }
+		free(hi); free(hs); free(hr); }
+	vh_sample("{\"block\":\"recipient-info-lookups\",\"serial_lengths\":9,\"issuer_forms\":2}");
+}
 static void blk_cross(void) { if (!vh_block_begin("cross-type")) return; for (int i = 0; i < NSEEDS; i++) for (int j = 0; j < NSEEDS; j++) { if (SEEDS[j].c == SEEDS[i].c) continue; int dup = 0; for (int k = 0; k < j; k++) if (SEEDS[k].c == SEEDS[j].c) dup = 1; if (dup) continue; if (!vh_next()) continue; feed(&SEEDS[j], SEEDS[i].d, SEEDS[i].n); } }
-static void body(void) { for (int i = 0; i < NSEEDS; i++) { char bn[64]; snprintf(bn, sizeof bn, "seed-%s", SEEDS[i].name); if (!vh_block_begin(bn)) continue; if (vh_deadline_hit()) { vh_capped = 1; continue; } mutate_seed(&SEEDS[i]); vh_sample("{\"seed\":\"%s\",\"bytes\":%zu,\"der\":%d}", SEEDS[i].name, SEEDS[i].n, SEEDS[i].der); } blk_capacity(); blk_crafted_cbc(); blk_crafted_gcm(); blk_ctx_capacity(); blk_cross(); }
+static void body(void) { for (int i = 0; i < NSEEDS; i++) { char bn[64]; snprintf(bn, sizeof bn, "seed-%s", SEEDS[i].name); if (!vh_block_begin(bn)) continue; if (vh_deadline_hit()) { vh_capped = 1; continue; } mutate_seed(&SEEDS[i]); vh_sample("{\"seed\":\"%s\",\"bytes\":%zu,\"der\":%d}", SEEDS[i].name, SEEDS[i].n, SEEDS[i].der); } blk_capacity(); blk_crafted_cbc(); blk_crafted_gcm(); blk_ctx_capacity(); blk_rcpt_lookup(); blk_cross(); }
 /* ---------------- seeds ---------------- */
 #include "vnet.h"
 #include "tlsh.h"
